@@ -60,44 +60,52 @@ theorem takeFit_snd_subset (wl : Nat) (gs : List G) : ∀ g ∈ (takeFit wl gs).
 
 /-! ### The step relation -/
 
+theorem allZeroWidth_cons (s : Sec) (r : List Sec) :
+    allZeroWidth (s :: r) = true ↔ gsWidth s.2 = 0 ∧ allZeroWidth r = true := by
+  simp [allZeroWidth]
+
+/-- "Perfect fit": nothing that needs room follows. -/
+def PerfectRest (fx : Fixes) (rest : List Sec) : Prop :=
+  rest = [] ∨ isLoneNl rest = true ∨ (fx.zwPerfectFit = true ∧ allZeroWidth rest = true)
+
 /-- The four kinds of loop iteration that continue. -/
-inductive StepRel (cfg : Cfg) (sym lw : Nat) : St → St → Prop
+inductive StepRel (fx : Fixes) (cfg : Cfg) (sym lw : Nat) : St → St → Prop
   | push (st : St) (style : Nat) (gs : List G) (rest : List Sec)
       (hs : st.stack = (style, gs) :: rest)
       (hl : limitReached (effMax cfg lw) st.result.length = false)
-      (hfit : st.len + gsWidth gs < lw ∨ (st.len + gsWidth gs = lw ∧ rest = [])) :
-      StepRel cfg sym lw st
+      (hfit : st.len + gsWidth gs < lw ∨ (st.len + gsWidth gs = lw ∧
+                (rest = [] ∨ (fx.zwPerfectFit = true ∧ allZeroWidth rest = true)))) :
+      StepRel fx cfg sym lw st
         { st with curr := st.curr ++ [(style, gs)], len := st.len + gsWidth gs, stack := rest }
   | nl (st : St) (style : Nat) (gs : List G) (rest : List Sec)
       (hs : st.stack = (style, gs) :: rest)
       (hl : limitReached (effMax cfg lw) st.result.length = false)
       (heq : st.len + gsWidth gs = lw) (hnl : isLoneNl rest = true) :
-      StepRel cfg sym lw st
+      StepRel fx cfg sym lw st
         { st with curr := st.curr ++ (style, gs) :: rest, len := st.len + gsWidth gs, stack := [] }
   | split0 (st : St) (style : Nat) (gs : List G) (rest : List Sec)
       (hs : st.stack = (style, gs) :: rest)
       (hl : limitReached (effMax cfg lw) st.result.length = false)
       (hge : lw ≤ st.len + gsWidth gs)
-      (hnf : ¬ (st.len + gsWidth gs = lw ∧ (rest = [] ∨ isLoneNl rest = true)))
-      (hw : (gsWidth gs - (st.len + gsWidth gs - lw)) - cfg.leftSym.w = 0) :
-      StepRel cfg sym lw st
+      (hnf : ¬ (st.len + gsWidth gs = lw ∧ PerfectRest fx rest))
+      (hw : widthLeftF fx cfg lw st.len gs = 0) (hns : fx.noShortcut = false) :
+      StepRel fx cfg sym lw st
         { result := st.result ++ [st.curr ++ [(sym, [cfg.leftSym])]],
           curr := [], len := 0, stack := (style, gs) :: rest }
   | splitk (st : St) (style : Nat) (gs : List G) (rest : List Sec)
       (hs : st.stack = (style, gs) :: rest)
       (hl : limitReached (effMax cfg lw) st.result.length = false)
       (hge : lw ≤ st.len + gsWidth gs)
-      (hnf : ¬ (st.len + gsWidth gs = lw ∧ (rest = [] ∨ isLoneNl rest = true)))
-      (hw : (gsWidth gs - (st.len + gsWidth gs - lw)) - cfg.leftSym.w ≠ 0) :
-      StepRel cfg sym lw st
+      (hnf : ¬ (st.len + gsWidth gs = lw ∧ PerfectRest fx rest))
+      (hw : widthLeftF fx cfg lw st.len gs ≠ 0 ∨ fx.noShortcut = true) :
+      StepRel fx cfg sym lw st
         { result := st.result ++
-            [st.curr ++ [(style, (takeFit ((gsWidth gs - (st.len + gsWidth gs - lw)) - cfg.leftSym.w) gs).1),
-                         (sym, [cfg.leftSym])]],
+            [st.curr ++ [(style, (takeFit (widthLeftF fx cfg lw st.len gs) gs).1), (sym, [cfg.leftSym])]],
           curr := [], len := 0,
-          stack := (style, (takeFit ((gsWidth gs - (st.len + gsWidth gs - lw)) - cfg.leftSym.w) gs).2) :: rest }
+          stack := (style, (takeFit (widthLeftF fx cfg lw st.len gs) gs).2) :: rest }
 
-theorem step_next {cfg : Cfg} {sym lw : Nat} {st st' : St}
-    (h : step cfg sym lw st = .next st') : StepRel cfg sym lw st st' := by
+theorem step_next {fx : Fixes} {cfg : Cfg} {sym lw : Nat} {st st' : St}
+    (h : step fx cfg sym lw st = .next st') : StepRel fx cfg sym lw st st' := by
   unfold step at h
   split at h
   · cases h
@@ -115,29 +123,41 @@ theorem step_next {cfg : Cfg} {sym lw : Nat} {st st' : St}
         split at h
         · rename_i hpf
           cases h
-          exact StepRel.push st style gs rest hs hl' (Or.inr hpf)
+          exact StepRel.push st style gs rest hs hl' (Or.inr ⟨hpf.1, Or.inl hpf.2⟩)
         · rename_i hnpf
           split at h
           · rename_i hn
             cases h
             exact StepRel.nl st style gs rest hs hl' hn.1 hn.2
           · rename_i hnn
-            have hge : lw ≤ st.len + gsWidth gs := Nat.le_of_not_lt hnlt
-            have hnf : ¬ (st.len + gsWidth gs = lw ∧ (rest = [] ∨ isLoneNl rest = true)) := by
-              intro ⟨he, ho⟩
-              cases ho with
-              | inl h1 => exact hnpf ⟨he, h1⟩
-              | inr h2 => exact hnn ⟨he, h2⟩
             split at h
-            · rename_i hw
+            · rename_i hz
               cases h
-              exact StepRel.split0 st style gs rest hs hl' hge hnf hw
-            · rename_i hw
-              cases h
-              exact StepRel.splitk st style gs rest hs hl' hge hnf hw
+              exact StepRel.push st style gs rest hs hl' (Or.inr ⟨hz.1, Or.inr hz.2⟩)
+            · rename_i hnz
+              have hge : lw ≤ st.len + gsWidth gs := Nat.le_of_not_lt hnlt
+              have hnf : ¬ (st.len + gsWidth gs = lw ∧ PerfectRest fx rest) := by
+                intro ⟨he, ho⟩
+                rcases ho with h1 | h2 | h3
+                · exact hnpf ⟨he, h1⟩
+                · exact hnn ⟨he, h2⟩
+                · exact hnz ⟨he, h3⟩
+              split at h
+              · rename_i hw
+                cases h
+                exact StepRel.split0 st style gs rest hs hl' hge hnf hw.1 hw.2
+              · rename_i hw
+                cases h
+                refine StepRel.splitk st style gs rest hs hl' hge hnf ?_
+                by_cases h0 : widthLeftF fx cfg lw st.len gs = 0
+                · right
+                  cases hns : fx.noShortcut with
+                  | true => rfl
+                  | false => exact absurd ⟨h0, hns⟩ hw
+                · left; exact h0
 
-theorem step_done_stackEmpty {cfg : Cfg} {sym lw : Nat} {st : St}
-    (h : step cfg sym lw st = .done .stackEmpty) : st.stack = [] := by
+theorem step_done_stackEmpty {fx : Fixes} {cfg : Cfg} {sym lw : Nat} {st : St}
+    (h : step fx cfg sym lw st = .done .stackEmpty) : st.stack = [] := by
   unfold step at h
   split at h
   · assumption
@@ -146,8 +166,8 @@ theorem step_done_stackEmpty {cfg : Cfg} {sym lw : Nat} {st : St}
     · simp only at h
       repeat (first | cases h | split at h)
 
-theorem step_done_lineLimit {cfg : Cfg} {sym lw : Nat} {st : St}
-    (h : step cfg sym lw st = .done .lineLimit) :
+theorem step_done_lineLimit {fx : Fixes} {cfg : Cfg} {sym lw : Nat} {st : St}
+    (h : step fx cfg sym lw st = .done .lineLimit) :
     st.stack ≠ [] ∧ limitReached (effMax cfg lw) st.result.length = true := by
   unfold step at h
   split at h
@@ -160,11 +180,11 @@ theorem step_done_lineLimit {cfg : Cfg} {sym lw : Nat} {st : St}
       repeat (first | cases h | split at h)
 
 /-- Invariant principle for the loop. -/
-theorem loop_inv {cfg : Cfg} {sym lw : Nat} (P : St → Prop)
-    (hstep : ∀ st st', P st → StepRel cfg sym lw st st' → P st') :
+theorem loop_inv {fx : Fixes} {cfg : Cfg} {sym lw : Nat} (P : St → Prop)
+    (hstep : ∀ st st', P st → StepRel fx cfg sym lw st st' → P st') :
     ∀ (fuel : Nat) (st st' : St) (stop : Stop), P st →
-      loop cfg sym lw fuel st = some (st', stop) →
-      P st' ∧ step cfg sym lw st' = .done stop := by
+      loop fx cfg sym lw fuel st = some (st', stop) →
+      P st' ∧ step fx cfg sym lw st' = .done stop := by
   intro fuel
   induction fuel with
   | zero => intro st st' stop _ h; simp [loop] at h
